@@ -382,6 +382,67 @@ def gen_eosreuse_case(rng):
     return {"mode": "pair", "cfg": cfg, "caps": caps, "ops": ops, "kind": "pair-eosreuse"}
 
 
+def gen_cachetail_case(rng):
+    """Directed family: a reader stops in the MIDDLE of a DATA frame (k < frame length bytes, e.g. a 4-byte prefix),
+    abandons the transient stream, and the same reusable stream (one per capability) then carries the next transient
+    stream with distinguishable bytes: the new reader must receive exactly the new writer's bytes, never the unread tail.
+    Variants: reader on the accept / connect side, read half dropped before / after the writer closed, tail shorter or
+    longer than the first read of the next stream, 2-4 incarnations, the last one read to end-of-stream."""
+    cfg = []
+    for _ in (0, 1):
+        rfs, rbs, rfc, wfs = gen_cfg(rng, False)
+        rfs = rfs if rfs >= 16 else rng.choice([16, 80, 100])
+        wfs = wfs if wfs >= 16 else rng.choice([16, 79, 150])
+        cfg.append([rfs, max(rbs, rfs * 4, 1000), max(rfc, 8), wfs])
+    rs, kr = rng.below(2), rng.below(2)
+    c = rng.choice([0, 1, 3, 9])
+    caps = [{"accept": [], "connect": []}, {"accept": [], "connect": []}]
+    caps[rs]["accept" if kr == 0 else "connect"].append([c, 1])
+    caps[1 - rs]["connect" if kr == 0 else "accept"].append([c, rng.choice([1, 2])])
+    ops, nxt, tail = [], 1, None
+    wfs_w, rfs_r = cfg[1 - rs][3], cfg[rs][0]
+
+    def boundary(x):          # x bytes of the stream end exactly at the end of a chunk the dispatcher hands over
+        return (x % wfs_w) % rfs_r == 0
+
+    m = rng.range(2, 4)
+    for j in range(m):
+        r, w = nxt, nxt + 1
+        nxt += 2
+        o = [["open", rs, kr, c, r], ["open", 1 - rs, 1 - kr, c, w]]
+        ops += o if rng.chance(1, 2) else o[::-1]
+        n = rng.choice([8, 20, 79, 150, 300, 1000])
+        ops += [["write", w, n], ["flush", w]]
+        cons = 0
+        if tail is not None:
+            # first read of the new stream: shorter than, equal to, longer than the stale tail
+            first = min(n, max(1, rng.choice([1, 4, tail - 1, tail, tail + 1, n])))
+            ops.append(["read", r, first])
+            cons = first
+        if j == m - 1:
+            ops += [["dropw", w], ["read", r, 5000]]
+            break
+        c0 = min(n, wfs_w, rfs_r)
+        cands = [k for k in (1, 4, 4, c0 // 2, c0 - 1, rng.range(1, max(1, n - 1))) if k >= 1 and cons + k < n and not boundary(cons + k)]
+        if cands:
+            k = rng.choice(cands)
+            ops.append(["read", r, k])                           # stops inside a DATA frame: the rest stays in the read cache
+            cons += k
+        if cons < n and not boundary(cons):
+            tail = 1
+            while cons + tail < n and not boundary(cons + tail):
+                tail += 1
+        else:
+            tail = 1
+        if rng.chance(1, 2):
+            ops += [["dropw", w], ["dropr", r]]                  # abandoned after the writer closed
+        else:
+            ops += [["dropr", r], ["dropw", w]]                  # ... before
+        rel = [["dropw", r], ["dropr", w]]
+        ops += rel if rng.chance(1, 2) else rel[::-1]
+    return {"mode": "pair", "cfg": cfg, "caps": caps, "ops": ops, "kind": "pair-cachetail"}
+
+
 def raw_hdr(fk, sk, idv):
     return fk | sk | idv
 
@@ -879,6 +940,7 @@ def build_cases(rng, tier):
     cases += [gen_flood_case(rng) for _ in range(nflood)]
     cases += [gen_ctlflood_case(rng, 2000 if q else 5000) for _ in range(10 if q else 80)]
     cases += [gen_eosreuse_case(rng) for _ in range(16 if q else 400)]
+    cases += [gen_cachetail_case(rng) for _ in range(12 if q else 300)]
     return cases
 
 
@@ -977,7 +1039,7 @@ def run(rep):
                                             "drops of either half in any order, ~2% invalid ops; raw: arbitrary frames (any kind incl. the unassigned one, ids in and out of range, "
                                             "truncated payloads, single bytes, close) against one real Mux whose application opens/reads/drops; raw-flood: OPEN then DATA floods, "
                                             "application never reads; raw-ctlflood: after one OPEN, 2000 (quick) / 5000 OPEN, CLOSE, OPEN+CLOSE, CLOSE+OPEN+DATA(0), OPEN+DATA(1) frames at a stream "
-                                            "nobody accepts / nobody connects / whose reader never reads, read_frame_count 3..12 (predicate: queued frames taken off the transport <= read_frame_count + 1); pair-eosreuse: one reusable stream per capability, 2-4 transient streams in sequence on it, each read to end-of-stream, the old read half KEPT while the write halves are released and the peer starts the next transient stream on the same id (data already queued behind the CLOSE or arriving later, reader on the accept or on the connect side, empty streams, reverse traffic), then the old half is read again before it is dropped (predicates: end-of-stream is sticky - a later read returns 0 bytes at once; bytes are attributed to the counterpart handle of the same incarnation; end-of-stream not before the counterpart closed - they mirror the end-of-stream clause of C14_handle_isolation_and_order); header: all 2^16 values + 384 (kind,kind,id) triples; verify: boundary configs"},
+                                            "nobody accepts / nobody connects / whose reader never reads, read_frame_count 3..12 (predicate: queued frames taken off the transport <= read_frame_count + 1); pair-eosreuse: one reusable stream per capability, 2-4 transient streams in sequence on it, each read to end-of-stream, the old read half KEPT while the write halves are released and the peer starts the next transient stream on the same id (data already queued behind the CLOSE or arriving later, reader on the accept or on the connect side, empty streams, reverse traffic), then the old half is read again before it is dropped (predicates: end-of-stream is sticky - a later read returns 0 bytes at once; bytes are attributed to the counterpart handle of the same incarnation; end-of-stream not before the counterpart closed - they mirror the end-of-stream clause of C14_handle_isolation_and_order); pair-cachetail: one reusable stream per capability, 2-4 transient streams in sequence, the reader of each but the last stops inside a DATA frame (1, 4, half, all but one byte of the first chunk) and abandons the stream before or after the writer closed, the next writer sends distinguishable bytes, first read of the next stream shorter / equal / longer than the unread tail (oracle: isolation and counterpart-handle predicates); header: all 2^16 values + 384 (kind,kind,id) triples; verify: boundary configs"},
         "samples": [{"case": cases[i], "impl": impl_obs(cases[i], outs[i]), "model_obs": samp.get(i)} for i in sample_ids if i < len(cases)],
         "correspondence_mismatches": len(mm), "predicate_failures": len(pred_fail),
         "partial": "Proved (closed, no axioms). Components: header layout for all 2^16 values; totality of the frame-kind match; both sides compute the same "
